@@ -468,3 +468,51 @@ func (g *G) genChain(id string) *History {
 	}
 	return h
 }
+
+// genInvalRace: a successful unsafe request completes while a GET for another variant of the same
+// URI is in flight (it has read the index, its reply is still to come); afterwards the variants
+// stored before the unsafe request are asked for again.
+func (g *G) genInvalRace(id string) *History {
+	h := &History{ID: id, Prop: g.prop, Class: "inval-race", Backend: pick(g, "mem", "mem", "fs"), Logger: "discard", Concurrent: true}
+	url := "http://a.test/r"
+	vary := pick(g, "X-A", "X-A", "X-A, X-B", "")
+	get := func(at int64, xa string, delay int64, body string) Op {
+		hd := Hdr{{"Date", dateAt(at+delay, 0)}, {"Cache-Control", "max-age=600"}}
+		if g.chance(0.5) {
+			hd = append(hd, [2]string{"Etag", `"r"`})
+		}
+		hd = append(hd, varyHdr(vary)...)
+		var rh Hdr
+		if vary != "" {
+			rh = Hdr{{"X-A", xa}}
+		}
+		return Op{Op: "req", AtNs: at, Method: "GET", URL: url, Hdr: rh, Replies: []Reply{{Status: 200, Hdr: hd, Body: body, DelayNs: delay, BodyFail: -1}}}
+	}
+	h.Ops = append(h.Ops, get(0, "1", 0, "v1"))
+	if g.chance(0.5) {
+		h.Ops = append(h.Ops, get(2*sec, "3", 0, "v3"))
+	}
+	at := 10 * sec
+	rounds := 1 + g.r.Intn(2)
+	for i := 0; i < rounds; i++ {
+		slow := pick(g, sec, 2*sec, sec/2+1)
+		fast := pick(g, int64(1), sec/4, sec/2)
+		inflight := get(at, pick(g, "2", "2", "1", "4"), slow, "w"+strconv.Itoa(i))
+		unsafe := Op{Op: "req", AtNs: at, Method: pick(g, "PUT", "POST", "DELETE", "PATCH", "MKCOL", "FOO"), URL: pick(g, url, "http://A.test:80/r"),
+			Replies: []Reply{{Status: pick(g, 200, 204, 201, 303, 404, 500), Hdr: Hdr{{"Date", dateAt(at, 0)}}, DelayNs: fast, BodyFail: -1}}}
+		if g.chance(0.5) {
+			h.Ops = append(h.Ops, inflight, unsafe)
+		} else {
+			h.Ops = append(h.Ops, unsafe, inflight)
+		}
+		at += 10 * sec
+		for _, xa := range []string{"1", "2", "3"} {
+			if g.chance(0.7) {
+				h.Ops = append(h.Ops, get(at, xa, 0, "n"+strconv.Itoa(i)+xa))
+				at += sec
+			}
+		}
+		at += 10 * sec
+	}
+	return h
+}
